@@ -189,7 +189,7 @@ PairCases == IF ~Pairs THEN {} ELSE
                            : id \in {i \in DOMAIN b.sc.certs : i > b.ck[1]}} : b \in {x \in BaseCases : x.ck[2] # "none"}}
 HasPermit(sc) == \E i \in DOMAIN sc.certs : sc.certs[i].permitted # {}
 Cases == UNION {{[sc |-> ApplyQ(b.sc, qk), ck |-> b.ck, qk |-> qk] : qk \in (IF b.ck[2] = "none" THEN QueryKnobs ELSE {"q_none"})} : b \in BaseCases \cup PairCases}
-         \cup {[sc |-> ApplyQ(b.sc, qk), ck |-> b.ck, qk |-> qk] : b \in {x \in BaseCases : x.ck[2] \in {"permit_ok", "permit_other"}}, qk \in {"name_other"}}
+         \cup {[sc |-> ApplyQ(b.sc, qk), ck |-> b.ck, qk |-> qk] : b \in {x \in BaseCases : x.ck[2] \in {"permit_ok", "permit_other"}}, qk \in {"name_other", "name_dot", "name_case"}}
 \* (what permitted DNS domains mean when no DNS name is requested, or an IP address is, is left open by the statement: not generated)
 Init == c \in Cases /\ done = FALSE
 SetToSeq(S) == CHOOSE f \in [1..Cardinality(S) -> S] : \A i, j \in 1..Cardinality(S) : i # j => f[i] # f[j]
